@@ -39,6 +39,7 @@ type Prog struct {
 	allFns map[*ssa.Function]bool
 
 	LoadNotes []string
+	Overlay   map[string][]byte // variant overlay (absolute path -> content), without the pam stub
 }
 
 func goEnv() []string {
@@ -124,7 +125,7 @@ func LoadProg(repo string, extraOverlay map[string][]byte, goarch string) (*Prog
 	if err != nil {
 		return nil, err
 	}
-	p := &Prog{Repo: repo, Fset: fset, ByPath: map[string]*packages.Package{}}
+	p := &Prog{Repo: repo, Fset: fset, ByPath: map[string]*packages.Package{}, Overlay: extraOverlay}
 	var loadErrs []string
 	packages.Visit(pkgs, nil, func(pk *packages.Package) {
 		p.All = append(p.All, pk)
